@@ -60,6 +60,10 @@ def gen_ops(tier, rng):
         for (n, gmp) in [(8, 4), (16, 16), (4, 1)]:
             ops.append((f"concstream 3 2 64 1000 {n} {gmp} {conc}", {"cat": "concstream", "n": n}))
             ops.append((f"concstream 10 4 4096 50000 {n} {gmp} {conc}", {"cat": "concstream", "n": n}))
+    # a caller whose call FAILS (one stream errors at once, the others are slow) next to healthy callers on one StreamEncoder
+    for (n, gmp) in [(4, 1), (4, 4), (8, 16)]:
+        ops.append((f"concstreamf 4 2 65536 200000 {n} {gmp} {6 if tier == 'quick' else 40}", {"cat": "concstream-fault", "n": n}))
+        ops.append((f"concstreamf 3 2 256 3000 {n} {gmp} {10 if tier == 'quick' else 60}", {"cat": "concstream-fault", "n": n}))
     return ops
 
 
